@@ -20,6 +20,12 @@ ARBITRARY = ["", "x y", "1abc", "a.b", "NONE ", "none", "_beta", "__delta__", "_
              "N", "ON", "NO", "ONE", "in", "in_", "class", "class_", "None", "None_", "is", "_in", "NONE_"]
 
 
+import types  # noqa: E402
+
+_PLAIN_MODULE = types.ModuleType("plain")       # what every module object resolves by itself (__name__, __doc__, __class__, ...)
+BUILTIN_NAMES = ["enumerate", "str", "len", "super", "isinstance", "hasattr", "globals", "int", "list"]
+
+
 def run_program(prog):
     if "G" in prog["libs"]:
         return run_in_child([prog])[0]
@@ -83,8 +89,9 @@ def _run(prog):
             o["by_id"] = by_id
             by_name = []
             for n in used:
-                if reserved(name, n):
-                    continue        # resolves to the library's own attribute: not a tag lookup
+                if (n in vars(Tags) or hasattr(_PLAIN_MODULE, n) or (n in vars(Tags.TagLibrary()) and n not in lib_names(name))) if g \
+                        else reserved(name, n):
+                    continue        # resolves to the library object's (the module object's) own attribute: not a tag lookup
                 try:
                     r = getattr(Tags, n) if g else getattr(libs[name], n)
                     r = ["id", r] if type(r) is int else ["err", "nonint"]
@@ -159,7 +166,7 @@ def random_program(rng, use_global, length=10):
     libs = ["L1", "L2"] + (["G"] if use_global else [])
     if rng.random() < 0.3:
         libs = libs[1:]
-    pool = ORDINARY * 3 + ["NONE"] + LOCAL_RESERVED + ARBITRARY + (GLOBAL_RESERVED if use_global else [])
+    pool = ORDINARY * 3 + ["NONE"] + LOCAL_RESERVED + ARBITRARY + ((GLOBAL_RESERVED + BUILTIN_NAMES) if use_global else [])
     ops = []
     for _ in range(length):
         ops.append([rng.choice(libs), rng.choice(pool)])
